@@ -249,6 +249,36 @@ def oracle_c23(ctx, budget_s):
                     if a != got:
                         report(ctx, "exhaust", case, "weighted design returns %d solutions (%d distinct prints), its copy-expanded twin %d (%d)" % (
                             sum(got.values()), len(got), sum(a.values()), len(a)), None, known_for(case.regs, "C23", "exhaust:twin"))
+        if got is not None and not ctx.failures:
+            # renaming twin: the same design with numeric / boolean names on the simple factors (names are the
+            # predicates' arguments; weights must not depend on what a level is called)
+            ndesc = json.loads(json.dumps(case.desc))
+            styles = [lambda i: i + 1, lambda i: float(i), lambda i: bool(i)]
+            for k, f in enumerate(ndesc["factors"]):
+                if f["window"] is None:
+                    st = styles[(k + ctx.seed) % 3] if len(f["levels"]) == 2 else styles[(k + ctx.seed) % 2]
+                    for i, l in enumerate(f["levels"]):
+                        l["name"] = st(i)
+            try:
+                nblk = D.build(ndesc).block
+                exps = O.synth(nblk, O.CAP_SOLUTIONS + 1, "IterateSATGen", timeout=40)
+                done = len(exps) <= O.CAP_SOLUTIONS
+                built_ok = True
+            except O.CallTimeout:
+                exps, done, built_ok = [], False, False
+            except Exception as ex:
+                exps, done, built_ok = [], False, False
+                report(ctx, "exception", case, "with the simple levels renamed to numbers / booleans, building or sampling the design "
+                       "raised %s: %s (the design with string names works)" % (type(ex).__name__, str(ex)[:120]), None,
+                       known_for(case.regs, "C23", "exhaust:renamed"))
+            if built_ok:
+                if done:
+                    ctx.count("C23.renamed")
+                    b = multiset([D.exp_to_seq(ndesc, e)[0] for e in exps])
+                    if {k: v for k, v in b.items()} != {k: v for k, v in got.items()}:
+                        report(ctx, "exhaust", case, "with the simple levels renamed to numbers / booleans the design has %d solutions "
+                               "(%d distinct prints), with string names %d (%d)" % (sum(b.values()), len(b), sum(got.values()), len(got)),
+                               None, known_for(case.regs, "C23", "exhaust:renamed"))
         ctx.case(("C23", json.dumps(case.desc, sort_keys=True)), True,
                  sample={"design": sample_desc(case), "twin": bool(tw)} if len(ctx.samples) < 3 else None)
         if ctx.failures:
@@ -327,7 +357,7 @@ def oracle_c24(ctx, budget_s):
             align = rng.choice(["equal preamble", "parallel start", "post preamble"])
             cs = [c for c in b["cs"]]
             lhs = {"factors": F, "block": {"k": "multicross", "design": b["design"], "crossings": crossings, "cs": cs,
-                                           "rcc": b["rcc"], "mode": mode, "align": align}}
+                                           "rcc": b["rcc"], "mode": mode, "align": align, "as_strings": rng.random() < 0.5}}
             rhs = {"factors": F, "block": {"k": "merge", "cs": cs, "mode": mode, "align": align,
                                            "bs": [{"k": "cross", "design": b["design"], "crossing": c, "cs": [], "rcc": b["rcc"]} for c in crossings]}}
         a = _exh(ctx, lhs)
